@@ -169,6 +169,9 @@ Definition pok_verify (pk : pubkey) (sp : sigproof) (c : K) : bool :=
       feqb K (a_bar * pk_x pk) b_bar
   | PokPS s1 s2 comm resp =>
       negb (feqb K s1 0) && negb (feqb K s2 0) &&
+      (* more revealed entries than generators, or an index beyond the key: Err (index = key size: panic) *)
+      Nat.leb (length disc) (length (pk_y pk)) &&
+      forallb (fun i => Nat.ltb i (length (pk_y pk))) (map fst disc) &&
       Nat.eqb (length resp) (hidden_count pk disc + 2) &&
       feqb K (s1 * (revealed_sum (pk_y pk) disc + pk_x pk + comm)) s2
   end.
